@@ -30,10 +30,13 @@ func (c *DnsController) backgroundRefresh(cacheKey string, dnsMessage *dnsmessag
 	defer cancel()
 
 	// Ensure refreshing flag is cleared even if refresh fails
-	// This prevents permanent deadlock if background refresh fails
+	// This prevents permanent deadlock if background refresh fails.
+	// The entry is loaded directly: LookupDnsRespCache evicts expired entries, and the entry
+	// being refreshed is expired by definition - a failed refresh must release the
+	// single-refresh latch, not delete the stale answer that is still inside its window.
 	defer func() {
-		if cache := c.LookupDnsRespCache(cacheKey, false); cache != nil {
-			if cache.IsRefreshing() {
+		if val, ok := c.dnsCache.Load(cacheKey); ok {
+			if cache, ok := val.(*DnsCache); ok && cache.IsRefreshing() {
 				cache.MarkRefreshed()
 			}
 		}
